@@ -43,7 +43,7 @@ def line_of(toks):
 
 
 # ---- Python mirror of Spec/C20.v (parse_ev, spec_step) : used for the finding predicates and by
-#      the generator; the Coq side recomputes the three flags and compares (Check/C20.v) ----
+#      the generator; the Coq side recomputes the two flags and compares (Check/C20.v) ----
 def parse_ev(toks):
     if len(toks) < 3:
         return None
@@ -98,8 +98,8 @@ class SpecState:
 
 
 def flags_of(ops):
+    """(key_collision, stale_lookup) of Spec/C20.v"""
     s = SpecState()
-    unheld = False
     stale = False
     names, addrs = set(), set()
     for op in ops:
@@ -108,13 +108,11 @@ def flags_of(ops):
             if v is not None:
                 names.add(v[0])
                 addrs.add('<error>' if v[1] is None else v[1])
-                if v[1] is None and v[0] not in s.map:
-                    unheld = True
         elif op[0] == 'find':
             if s.stale():
                 stale = True
         s.step(op)
-    return unheld, bool(names & addrs), stale
+    return bool(names & addrs), stale
 
 
 NAMES = ['a.com', 'www.b.org', 'c.onion', 'd.exit', 'e.net']
@@ -140,7 +138,7 @@ class P(core.Prop):
             'clock advances that land exactly on / one tick before / after pending expiries, 0, fractions of a '
             'second, days; lookups by name and by address; listeners added at any point (duplicates included); '
             'lines delivered to a bare AddrMap or through TorState (address-mappings/all at bootstrap, then 650 '
-            'ADDRMAP events on a real TorControlProtocol). 70% of the cases avoid the three open finding classes. '
+            'ADDRMAP events on a real TorControlProtocol). 70% of the cases avoid the two open finding classes. '
             'non-trivial = at least 2 events, 1 advance that fires an expiry or an update of a held name, and 1 lookup; '
             'distinct = distinct case')
     trusted = ["twisted.internet.task.Clock; txtorcon.addrmap's `datetime` is replaced by a shim whose utcnow() "
@@ -366,12 +364,12 @@ class P(core.Prop):
         f = flags_of(case['ops'])
         return Rec(k_ops=L(self._op(o) for o in case['ops']),
                    k_obs=L(L(self._ev(e) for e in ch) for ch in obs['chunks']),
-                   k_flags=Pair(Bool(f[0]), Bool(f[1]), Bool(f[2])))
+                   k_flags=Pair(Bool(f[0]), Bool(f[1])))
 
     # ------------------------------------------------------------------ classification
     def kind(self, case, obs):
         f = flags_of(case['ops'])
-        tag = ''.join(c for c, b in zip('EKS', f) if b) or 'clean'
+        tag = ''.join(c for c, b in zip('KS', f) if b) or 'clean'
         return '%s/%s' % (case['via'], tag)
 
     def nontrivial(self, case, obs):
@@ -400,7 +398,7 @@ class P(core.Prop):
         a = rng.choice(pool)
         r = rng.random()
         held = n in s.map
-        if r < 0.16 and (held or not clean):
+        if r < 0.16:
             kind = 'error'
         elif r < 0.34:
             kind = 'never'
@@ -483,7 +481,6 @@ class P(core.Prop):
                 op = self._event(rng, s, names, addrs, clean, collide)
                 ops.append(op)
                 s.step(op)
-        dirty = s.stale()
         for _ in range(nops):
             r = rng.random()
             if r < 0.42:
@@ -563,9 +560,8 @@ class P(core.Prop):
                 yield dict(case, ops=ops[:i] + [['adv', op[1] // 2 - (op[1] // 2) % 8]] + ops[i + 1:])
 
     finding_preds = {
-        'error_for_unheld_name': lambda c, o: flags_of(c['ops'])[0],
-        'name_address_key_collision': lambda c, o: flags_of(c['ops'])[1],
-        'lookup_before_reactor_turn': lambda c, o: flags_of(c['ops'])[2],
+        'name_address_key_collision': lambda c, o: flags_of(c['ops'])[0],
+        'lookup_before_reactor_turn': lambda c, o: flags_of(c['ops'])[1],
     }
 
 
